@@ -294,15 +294,27 @@ impl<F: Read + Write + Seek> Flusher<F> for FlushBuffer {
             stream.buf_offset_from_start,
             stream.buffer.filled_slice(),
         )?;
-        debug_assert_eq!(
-            minialloc.read().unwrap().dir_entry(stream.stream_id).stream_len,
-            stream.total_len
-        );
+        // The directory's length need not equal `stream.total_len` here: a
+        // second handle on the same stream may have grown it in the meantime.
         Ok(())
     }
 }
 
 //===========================================================================//
+
+/// Returns the start sector and length of the stream that a handle refers to,
+/// or a `NotFound` error if that directory entry is no longer a stream (the
+/// stream was removed while the handle was open).
+fn stream_location<F>(
+    minialloc: &MiniAllocator<F>,
+    stream_id: u32,
+) -> io::Result<(u32, u64)> {
+    let dir_entry = minialloc.dir_entry(stream_id);
+    if dir_entry.obj_type != ObjType::Stream {
+        not_found!("The stream no longer exists");
+    }
+    Ok((dir_entry.start_sector, dir_entry.stream_len))
+}
 
 fn read_data_from_stream<F: Read + Seek>(
     minialloc: &mut MiniAllocator<F>,
@@ -310,11 +322,7 @@ fn read_data_from_stream<F: Read + Seek>(
     buf_offset_from_start: u64,
     buf: &mut [u8],
 ) -> io::Result<usize> {
-    let (start_sector, stream_len) = {
-        let dir_entry = minialloc.dir_entry(stream_id);
-        debug_assert_eq!(dir_entry.obj_type, ObjType::Stream);
-        (dir_entry.start_sector, dir_entry.stream_len)
-    };
+    let (start_sector, stream_len) = stream_location(minialloc, stream_id)?;
     let num_bytes = if buf_offset_from_start >= stream_len {
         0
     } else {
@@ -346,12 +354,16 @@ fn write_data_to_stream<F: Read + Write + Seek>(
     buf_offset_from_start: u64,
     buf: &[u8],
 ) -> io::Result<()> {
-    let (old_start_sector, old_stream_len) = {
-        let dir_entry = minialloc.dir_entry(stream_id);
-        debug_assert_eq!(dir_entry.obj_type, ObjType::Stream);
-        (dir_entry.start_sector, dir_entry.stream_len)
-    };
-    debug_assert!(buf_offset_from_start <= old_stream_len);
+    let (old_start_sector, old_stream_len) =
+        stream_location(minialloc, stream_id)?;
+    if buf_offset_from_start > old_stream_len {
+        // Possible when a second handle on the same stream truncated it.
+        invalid_input!(
+            "Cannot write at offset {}, the stream has only {} bytes",
+            buf_offset_from_start,
+            old_stream_len
+        );
+    }
     let new_stream_len =
         old_stream_len.max(buf_offset_from_start + buf.len() as u64);
     let new_start_sector = if old_start_sector == consts::END_OF_CHAIN {
@@ -449,11 +461,8 @@ fn resize_stream<F: Read + Write + Seek>(
     stream_id: u32,
     new_stream_len: u64,
 ) -> io::Result<()> {
-    let (old_start_sector, old_stream_len) = {
-        let dir_entry = minialloc.dir_entry(stream_id);
-        debug_assert_eq!(dir_entry.obj_type, ObjType::Stream);
-        (dir_entry.start_sector, dir_entry.stream_len)
-    };
+    let (old_start_sector, old_stream_len) =
+        stream_location(minialloc, stream_id)?;
     let new_start_sector = if old_start_sector == consts::END_OF_CHAIN {
         // Case 1: The stream has no existing chain.  We will allocate a new
         // chain that is all zeroes.
